@@ -59,6 +59,8 @@ def scriptSrc (id : Nat) (imps : List Imp) : String :=
 
 def mkScript (id : Nat) (imps : List Imp) : Content := { bytes := (scriptSrc id imps).toList, imps, val := id }
 def mkData (text : String) (val : Nat) : Content := { bytes := text.toList, imps := [], val }
+def mkFs (l : List (String × Content)) : Fs := l.map (fun e => (pathOf e.1, e.2))
+def imp (dot : Bool) (raw : String) (dec : Dec := .none) : Imp := { dot, raw := raw.toList, dec }
 
 /-! ## observables -/
 def sortedNames (z : Fs) : List String := sortStrs (z.map (fun e => str (joinSlash e.1)))
@@ -239,9 +241,71 @@ def genCase (idx : Nat) : Gen Case := do
   let relStr := if relative && mainArgOf cwd1 main true ≠ render true main then "rel" else "abs"
   pure (mkCase s!"C15-{idx}" s!"{shapeName}/{relStr}" cls fs main cwd1 cwd2 relative)
 
+/-! ## nested modules: go.mod at several depths, the same relative names in every directory with different
+contents, module-rooted imports at every depth (also directly in a nested root), imports in both orders -/
+
+def treeDirs : List Path := [[], [comp "s"], [comp "s", comp "t"], [comp "u"], [comp "s", comp "v"]]
+
+def nestedChoices : List (List Path) :=
+  [ [[comp "s"]], [[comp "s"], [comp "s", comp "t"]], [[comp "u"]], [[comp "s", comp "t"]],
+    [[comp "s"], [comp "u"]], [[comp "s"], [comp "s", comp "v"]] ]
+
+def genTwin : Gen (Fs × Path × List Imp) := do
+  let place ← rand 4
+  let base : Path := match place with
+    | 0 => w1 | 1 => w1 ++ [comp "proj"] | 2 => pathOf "/srv/m" | _ => w2
+  let outer ← chance 5 6
+  let nested ← pick nestedChoices
+  let name ← pick modNames
+  let sentinels : List (Path × String) :=
+    (if outer then [(base, sentinelText name 0)] else []) ++ nested.map (fun d => (base ++ d, sentinelText "nested.org/n" 1))
+  let skeleton : Fs := sentinels.map (fun s => (s.1 ++ [sentinel], mkData s.2 0))
+  let mut files : Fs := []
+  let mut j := 0
+  for d in treeDirs do
+    let dir := base ++ d
+    let extra ← rand 4
+    let libImps : List Imp :=
+      [imp false "/data"] ++
+      (match extra with
+       | 0 => [imp true "/data"]
+       | 1 => [imp false "/util"]
+       | 2 => [imp false "/data.arrai ", imp true "/util", imp false "/n.json"]
+       | _ => [])
+    files := files ++ [ (dir ++ [comp "lib.arrai"], mkScript (10 + j) libImps),
+                        (dir ++ [comp "util.arrai"], mkScript (200 + j) []),
+                        (dir ++ [comp "data.arrai"], mkScript (100 + j) []),
+                        (dir ++ [comp "n.json"], mkData (natStr (300 + j)) (300 + j)) ]
+    j := j + 1
+  let mainDirRel ← pick treeDirs
+  let mainDir := base ++ mainDirRel
+  let main := mainDir ++ [comp "main.arrai"]
+  let mainRoot := findRootC skeleton mainDir
+  let k ← (do let x ← rand 3; pure (x + 2))
+  let mut imps : List Imp := []
+  for _ in [0:k] do
+    let d ← pick treeDirs
+    let nm ← pick ["lib.arrai", "lib.arrai", "lib.arrai", "data.arrai", "util.arrai", "n.json"]
+    match ← genSpelling mainDir mainRoot (base ++ d ++ [comp nm]) .none with
+    | some i => imps := i :: imps
+    | none => pure ()
+  if mainRoot.isSome then
+    let nm ← pick ["/util", "/data", "/lib"]
+    let front ← chance 1 2
+    imps := if front then imps ++ [imp false nm] else imp false nm :: imps
+  pure (files ++ skeleton, main, imps)
+
+def genTwinCases (idx : Nat) : Gen (List Case) := do
+  let (fs, main, imps) ← genTwin
+  let cwdFirst ← chance 1 2
+  let cwd1 := if cwdFirst then w1 else w2
+  let cwd2 := if cwdFirst then w2 else w1
+  let relative ← chance 1 2
+  let mk (is : List Imp) : Fs := (main, mkScript 0 is) :: fs
+  pure [ mkCase s!"C15-n{idx}-fwd" "nested-twin/fwd" "good" (mk imps) main cwd1 cwd2 relative,
+         mkCase s!"C15-n{idx}-rev" "nested-twin/rev" "good" (mk imps.reverse) main cwd1 cwd2 relative ]
+
 /-! ## corpus -/
-def mkFs (l : List (String × Content)) : Fs := l.map (fun e => (pathOf e.1, e.2))
-def imp (dot : Bool) (raw : String) (dec : Dec := .none) : Imp := { dot, raw := raw.toList, dec }
 
 def corpus : List Case :=
   [ -- repaired: main script without a module imports a script below a nested go.mod that uses `//{/…}`
@@ -265,6 +329,14 @@ def corpus : List Case :=
              ("/tmp/vc15/w1/cmd/x/a.arrai", mkScript 1 []),
              ("/tmp/vc15/lib/b.arrai", mkScript 2 [])])
       (pathOf "/tmp/vc15/w1/cmd/x/main.arrai") w1 w2 true,
+    -- minimised past failure of C16 (root cache consulted for the parent directory), as a bundle
+    mkCase "C15-corpus-nested-root-warm" "corpus" "good"
+      (mkFs [("/srv/m/go.mod", mkData "module ex.com/m\n" 0), ("/srv/m/sub/go.mod", mkData "module ex.com/m/sub\n" 0),
+             ("/srv/m/main.arrai", mkScript 0 [imp false "/util", imp true "/sub/lib"]),
+             ("/srv/m/sub/lib.arrai", mkScript 1 [imp false "/data"]),
+             ("/srv/m/data.arrai", mkScript 100 []), ("/srv/m/sub/data.arrai", mkScript 10 []),
+             ("/srv/m/util.arrai", mkScript 2 [])])
+      (pathOf "/srv/m/main.arrai") w1 w2 false,
     mkCase "C15-corpus-sentinel-nonl" "corpus" "KF-bundle-sentinel-syntax"
       (mkFs [("/srv/m/go.mod", mkData "module ex.com/m" 0), ("/srv/m/main.arrai", mkScript 0 [])])
       (pathOf "/srv/m/main.arrai") w1 w2 false ]
@@ -274,6 +346,11 @@ def gen (seed n : Nat) (_thorough : Bool) : List Case := Id.run do
   for i in [0:n] do
     let (c, _) := (genCase i).run (seedOf seed (1500000 + i))
     out := c :: out
+  -- nested-module layouts, each with its imports in both orders
+  for i in [0:n / 6] do
+    let (cs, _) := (genTwinCases i).run (seedOf seed (1570000 + i))
+    for c in cs do
+      out := c :: out
   pure out.reverse
 
 end Arrai.C15
